@@ -25,8 +25,15 @@ Definition strip_delim (op cl : N) (s : str) : str := strip_go op cl false s.
 
 Definition lpar := 40%N. Definition rpar := 41%N. Definition lbr := 91%N. Definition rbr := 93%N.
 
-Definition remove_modifications (s : str) : str :=
+(* str.strip("-"): the hyphen that attaches a terminal modification in ProForma notation ([UNIMOD:1]-PEPTIDE, PEPTIDE-[..]) *)
+Definition dash := 45%N.
+Fixpoint lstrip_chr (c : N) (s : str) : str :=
+  match s with [] => [] | x :: r => if N.eqb x c then lstrip_chr c r else s end.
+Definition strip_chr (c : N) (s : str) : str := rev (lstrip_chr c (rev (lstrip_chr c s))).
+
+Definition strip_brackets (s : str) : str :=
   filter (fun c => negb (N.eqb c rpar)) (strip_delim lbr rbr (strip_delim lpar rpar s)).
+Definition remove_modifications (s : str) : str := strip_chr dash (strip_brackets s).
 
 (* ---- targets lose their decoy entries ---- *)
 Definition is_decoy_id (p : str) : bool := startswith (s2l "REV__") p || startswith (s2l "rev_") p.
